@@ -93,6 +93,8 @@ def run(tier, seed):
         for ci in range(ncases):
             length = rng.choice([0, 1, 1, 2, 2, 3, 4])
             chain = gen_chain(rng, length)
+            if len(chain) >= 3 and ci % 3 == 0:
+                chain[rng.randrange(1, len(chain) - 1)] = []          # a middle link that adds no keys of its own
             ondisk = [rng.random() < 0.25 for _ in chain]
             dd = [rng.random() < 0.3 for _ in chain]          # staged in a dictionary with a default factory
             cache = rng.random() < 0.6
